@@ -138,7 +138,11 @@ class SArr(Model):
             zl, zh = to_z3(lo), to_z3(hi)
             ln = z3.If(zh > zl, zh - zl, 0)
         g = self.fn
-        return SArr(ln, lambda k: g(_add(k, lo)), kind=self.kind)
+        child = SArr(ln, lambda k: g(_add(k, lo)), kind=self.kind)
+        # remember what this is a window of (for prefix-sum reasoning): (element function, offset)
+        par = getattr(self, 'parent', None)
+        child.parent = (par[0], _add(par[1], lo)) if par is not None else (g, lo)
+        return child
 
     def mask_or_fancy(self, I, idx):
         # a[mask]: a view of the elements where mask holds (its length is data dependent, so it
